@@ -61,7 +61,7 @@ namespace PV.Chan
 
 /-! ## window invariant: sent + reserved + outWin = granted -/
 
-def WInv (s : St) : Prop := dataSum s.wire + heldDataAll s.thr + s.outWin = s.granted
+def WInv (s : St) : Prop := dataSum s.wire + heldDataAll s.thr + s.outWin + s.leaked = s.granted
 
 theorem heldData_set (l : List TSt) (t : Nat) (old x : TSt) (h : l[t]? = some old) :
     heldDataAll (l.set t x) + old.heldData = heldDataAll l + x.heldData :=
@@ -155,7 +155,7 @@ theorem wakeRegion_winv (cfg : Cfg) (s : St) (t dt want : Nat) (ext : Bool) (lef
 
 theorem holdOrDone_winv (s : St) (t : Nat) (ms : List Msg) (k : Kont) (old : TSt)
     (h : s.thr[t]? = some old)
-    (hi : dataSum s.wire + (heldDataAll s.thr - old.heldData + dataSum ms) + s.outWin = s.granted)
+    (hi : dataSum s.wire + (heldDataAll s.thr - old.heldData + dataSum ms) + s.outWin + s.leaked = s.granted)
     (hle : old.heldData ≤ heldDataAll s.thr) : WInv (holdOrDone s t ms k) := by
   unfold holdOrDone
   split
@@ -179,8 +179,21 @@ end PV.Chan
 namespace PV.Chan
 
 theorem winv_congr (s s' : St) (h1 : s'.wire = s.wire) (h2 : s'.thr = s.thr) (h3 : s'.outWin = s.outWin)
-    (h4 : s'.granted = s.granted) (hi : WInv s) : WInv s' := by
-  simp only [WInv] at *; rw [h1, h2, h3, h4]; exact hi
+    (h4 : s'.granted = s.granted) (h5 : s'.leaked = s.leaked) (hi : WInv s) : WInv s' := by
+  simp only [WInv] at *; rw [h1, h2, h3, h4, h5]; exact hi
+
+theorem checkAdd_leaked (s : St) (n : Nat) : (checkAdd s n).1.leaked = s.leaked := by
+  unfold checkAdd; split
+  · rfl
+  · split <;> rfl
+
+theorem sendEof_leaked (s : St) : (sendEof s).1.leaked = s.leaked := by
+  unfold sendEof; split <;> rfl
+
+theorem closeInternal_leaked (s : St) : (closeInternal s).1.leaked = s.leaked := by
+  unfold closeInternal; split
+  · rfl
+  · simp [setClosed, sendEof_leaked]
 
 theorem checkAdd_frame (s : St) (n : Nat) :
     (checkAdd s n).1.wire = s.wire ∧ (checkAdd s n).1.thr = s.thr ∧ (checkAdd s n).1.outWin = s.outWin ∧
@@ -256,7 +269,7 @@ theorem step_winv (cfg : Cfg) (s : St) (a : Act) (hi : WInv s) : WInv (step cfg 
     simp only [step]; split
     · rename_i n hr
       obtain ⟨h1, h2, h3, h4⟩ := checkAdd_frame s n
-      have hi' : WInv (checkAdd s n).1 := winv_congr s _ h1 h2 h3 h4 hi
+      have hi' : WInv (checkAdd s n).1 := winv_congr s _ h1 h2 h3 h4 (checkAdd_leaked s n) hi
       have hr' : (checkAdd s n).1.thr[t]? = some (.gotBytes n) := by rw [h2]; exact hr
       split
       · exact winv_setThr _ t _ _ hr' rfl rfl hi'
@@ -268,7 +281,7 @@ theorem step_winv (cfg : Cfg) (s : St) (a : Act) (hi : WInv s) : WInv (step cfg 
       obtain ⟨r, hr⟩ := idleOf_spec s t hid
       obtain ⟨h1, h2, h3, h4, h5, _⟩ := closeInternal_frame s
       exact holdOrDone_nodata_winv _ t _ _ (.idle r) (by rw [h2]; exact hr) rfl h5
-        (winv_congr s _ h1 h2 h3 h4 hi)
+        (winv_congr s _ h1 h2 h3 h4 (closeInternal_leaked s) hi)
     · exact hi
   | shutdownWrite t =>
     simp only [step]; split
@@ -276,7 +289,7 @@ theorem step_winv (cfg : Cfg) (s : St) (a : Act) (hi : WInv s) : WInv (step cfg 
       obtain ⟨r, hr⟩ := idleOf_spec s t hid
       obtain ⟨h1, h2, h3, h4, h5, _⟩ := sendEof_frame s
       exact holdOrDone_nodata_winv _ t _ _ (.idle r) (by rw [h2]; exact hr) rfl h5
-        (winv_congr s _ h1 h2 h3 h4 hi)
+        (winv_congr s _ h1 h2 h3 h4 (sendEof_leaked s) hi)
     · exact hi
   | shutdownRead => exact hi
   | setMode m => exact hi
@@ -290,7 +303,7 @@ theorem step_winv (cfg : Cfg) (s : St) (a : Act) (hi : WInv s) : WInv (step cfg 
           obtain ⟨r, hr⟩ := idleOf_spec s t hid
           obtain ⟨h1, h2, h3, h4⟩ :=
             checkAdd_frame { s with recvd := s.recvd + n, discarded := s.discarded + n } n
-          have hi' := winv_congr s _ h1 h2 h3 h4 hi
+          have hi' := winv_congr s _ h1 h2 h3 h4 (checkAdd_leaked _ n) hi
           split
           · exact hi'
           · exact winv_setThr _ t (.idle r) _ (by rw [h2]; exact hr) rfl
@@ -305,7 +318,7 @@ theorem step_winv (cfg : Cfg) (s : St) (a : Act) (hi : WInv s) : WInv (step cfg 
       obtain ⟨r, hr⟩ := idleOf_spec s t hid
       obtain ⟨h1, h2, h3, h4, h5, _⟩ := closeInternal_frame s
       exact holdOrDone_nodata_winv _ t _ _ (.idle r) (by simp only; rw [h2]; exact hr) rfl h5
-        (winv_congr s _ h1 h2 h3 h4 hi)
+        (winv_congr s _ h1 h2 h3 h4 (closeInternal_leaked s) hi)
     · exact hi
   | requestFailed t =>
     simp only [step]; split
@@ -313,7 +326,14 @@ theorem step_winv (cfg : Cfg) (s : St) (a : Act) (hi : WInv s) : WInv (step cfg 
       obtain ⟨r, hr⟩ := idleOf_spec s t hid
       obtain ⟨h1, h2, h3, h4, h5, _⟩ := closeInternal_frame s
       exact holdOrDone_nodata_winv _ t _ _ (.idle r) (by rw [h2]; exact hr) rfl h5
-        (winv_congr s _ h1 h2 h3 h4 hi)
+        (winv_congr s _ h1 h2 h3 h4 (closeInternal_leaked s) hi)
+    · exact hi
+  | emitFail t =>
+    simp only [step]; split
+    · rename_i m ms k hr
+      have := heldData_set s.thr t _ (.idle .sshError) hr
+      simp only [WInv, setThr, TSt.heldData] at *
+      omega
     · exact hi
   | unlink => simp only [step]; split <;> exact hi
 
@@ -576,6 +596,10 @@ theorem step_pkt (cfg : Cfg) (s : St) (a : Act) (hi : PktInv s) : PktInv (step c
       exact pkt_holdOrDone _ t _ _ (fun m hm => okMsg_nodata _ m (closeInternal_msgs s m hm))
         (pkt_congr s _ h1 h2 (closeInternal_maxPkt s) hi)
     · exact hi
+  | emitFail t =>
+    simp only [step]; split
+    · exact pkt_setThr _ t _ (okHeld_of_not_hold _ _ (by intro ms k h; cases h)) (pkt_congr s _ rfl rfl rfl hi)
+    · exact hi
   | unlink => simp only [step]; split <;> exact hi
 
 theorem run_pkt (cfg : Cfg) (s : St) (as : List Act) (hi : PktInv s) : PktInv (run cfg s as) := by
@@ -640,11 +664,78 @@ theorem step_maxPkt (cfg : Cfg) (s : St) (a : Act) : (step cfg s a).maxPkt = s.m
     repeat' split
     all_goals rfl
   | peerEof => simp only [step]; split <;> rfl
+  | emitFail t => simp only [step]; split <;> rfl
   | unlink => simp only [step]; split <;> rfl
   | shutdownRead => rfl
   | setMode m => rfl
   | feed n => rfl
   | adjust n => rfl
+
+
+theorem holdOrDone_leaked (s : St) (t : Nat) (ms : List Msg) (k : Kont) :
+    (holdOrDone s t ms k).leaked = s.leaked := by
+  unfold holdOrDone; split <;> rfl
+
+theorem step_leaked (cfg : Cfg) (s : St) (a : Act) (hx : ∀ t, a ≠ .emitFail t) : (step cfg s a).leaked = s.leaked := by
+  cases a with
+  | send t n ext =>
+    simp only [step]; split
+    · obtain ⟨d, x, e, _⟩ := sendRegion_eff cfg s t n ext none; rw [e]; rfl
+    · rfl
+  | iter t =>
+    simp only [step]; split
+    · rename_i l ext hr
+      obtain ⟨d, x, e, _⟩ := sendRegion_eff cfg s t l.rem ext (some l); rw [e]; rfl
+    · rfl
+  | wake t dt =>
+    simp only [step]; split
+    · rename_i want ext left lp hr
+      obtain ⟨d, x, e, _⟩ := wakeRegion_eff cfg s t dt want ext left lp; rw [e]; rfl
+    · rfl
+  | emit t =>
+    simp only [step]; split
+    · rw [holdOrDone_leaked]
+    · rfl
+  | check t =>
+    simp only [step]; split
+    · rename_i n hr; split <;> simp [setThr, checkAdd_leaked]
+    · rfl
+  | close t =>
+    simp only [step]; split
+    · rw [holdOrDone_leaked, closeInternal_leaked]
+    · rfl
+  | shutdownWrite t =>
+    simp only [step]; split
+    · rw [holdOrDone_leaked, sendEof_leaked]
+    · rfl
+  | peerClose t =>
+    simp only [step]; split
+    · rw [holdOrDone_leaked]; exact closeInternal_leaked s
+    · rfl
+  | requestFailed t =>
+    simp only [step]; split
+    · rw [holdOrDone_leaked, closeInternal_leaked]
+    · rfl
+  | feedExt t code n =>
+    simp only [step]
+    repeat' split
+    all_goals first | rfl | simp [setThr, checkAdd_leaked]
+  | recv t k err =>
+    simp only [step]
+    repeat' split
+    all_goals rfl
+  | sendall t n ext =>
+    simp only [step]
+    repeat' split
+    all_goals rfl
+  | peerEof => simp only [step]; split <;> rfl
+  | emitFail t => exact absurd rfl (hx t)
+  | unlink => simp only [step]; split <;> rfl
+  | shutdownRead => rfl
+  | setMode m => rfl
+  | feed n => rfl
+  | adjust n => rfl
+
 
 theorem run_maxPkt (cfg : Cfg) (s : St) (as : List Act) : (run cfg s as).maxPkt = s.maxPkt := by
   induction as generalizing s with
@@ -856,6 +947,11 @@ theorem step_ainv (cfg : Cfg) (s : St) (a : Act) (hi : AInv s) : AInv (step cfg 
       exact ainv_holdOrDone _ t _ _ (.idle r) (by rw [h2]; exact hr) (by rw [h9]; exact Nat.zero_le _)
         (ainv_congr s _ h1 h2 h3 h4 h5 h6 h7 h8 hi)
     · exact hi
+  | emitFail t =>
+    simp only [step]; split
+    · rename_i m ms k hr
+      exact ainv_setThr _ t _ _ hr (Nat.zero_le _) (ainv_congr s _ rfl rfl rfl rfl rfl rfl rfl rfl hi)
+    · exact hi
   | unlink => simp only [step]; split <;> exact hi
 
 theorem run_ainv (cfg : Cfg) (s : St) (as : List Act) (hi : AInv s) : AInv (run cfg s as) := by
@@ -936,6 +1032,7 @@ theorem step_granted (cfg : Cfg) (s : St) (a : Act) : (step cfg s a).granted = s
     repeat' split
     all_goals rfl
   | peerEof => simp only [step, Act.adjustOf]; split <;> rfl
+  | emitFail t => simp only [step, Act.adjustOf]; split <;> rfl
   | unlink => simp only [step, Act.adjustOf]; split <;> rfl
   | shutdownRead => rfl
   | setMode m => rfl
